@@ -82,8 +82,9 @@ PROPS['C07'] = {
     'level': 'exploration',
     'technique': 'bounded-exhaustive enumeration of buffer placements against unmapped guard pages on the real library (fault address = oracle)',
     'level_text': 'Every algorithm row x direction x every valid length of the sweep x {all caller objects end-flush, all start-flush against PROT_NONE pages} x {alone, co-scheduled between a longer and a shorter job} x 7 variants, plus IV/tag/AAD extent sweeps; any access outside an object faults and is attributed to the object by address; canaries catch stray writes on shared pages; out-of-place sources must be unchanged.',
-    'level_note': 'Key objects and the manager itself are not guard-placed; direct-API functions are guard-placed by the C09 driver. In-place = out-of-place equality follows from C01-C03 comparing both against one reference.',
-    'drivers': [{'name': 'c07', 'src': ['props/c07.c'] + ALG, 'cfgs': ['std'], 'args': ''}],
+    'level_note': 'Key objects and the manager itself are not guard-placed; direct-API functions are guard-placed (end-flush and start-flush, every input, output, IV, AAD and tag buffer; bytes around the destination checked) by the second driver props/c09d.c. In-place = out-of-place equality follows from C01-C03 comparing both against one reference.',
+    'drivers': [{'name': 'c07', 'src': ['props/c07.c'] + ALG, 'cfgs': ['std'], 'args': ''},
+                {'name': 'c09d', 'src': ['props/c09d.c'] + ALG, 'cfgs': ['std'], 'args': 'C07'}],
     'deadline': {'quick': 900, 'thorough': 3000},
     'assumptions': ['object extents: message range, iv_len, aad_len, tag_len exactly as given in the job'],
 }
@@ -122,8 +123,9 @@ PROPS['C06'] = {
     'level': 'exploration',
     'technique': 'exhaustive enumeration of the full finite suite product (cipher mode x key size x direction x hash x chain order) on the real library, job and burst API, against documented acceptance rules and the reference of the named algorithms',
     'level_text': 'The complete product cipher_mode (0..NUM) x key length {8,16,24,32} x direction x hash_alg (0..NUM) x chain order (about 24 000 cells) is executed on all 7 variants through the job API and the asynchronous burst API: acceptance must equal the documented key-size / AEAD-pairing / chain-order rules, accepted cells must produce the named cipher (with the named key size) and the named hash over the range as it stands when the hash stage runs, CUSTOM stages run exactly once in the requested order, equal session fields give equal suite ids, and the burst API agrees with the job API.',
-    'level_note': 'One message length (96 bytes) and one parameter set per cell; acceptance rules are restated from intel-ipsec-mb.h / README and were calibrated against the pinned tree (differences are listed as findings, not absorbed).',
-    'drivers': [{'name': 'c06', 'src': ['props/c06.c'] + ALG, 'cfgs': ['std'], 'args': ''}],
+    'level_note': 'Second driver (props/c04.c, mixed: C06): jobs of two different suites that share an out-of-order manager in one schedule (8 hand-picked pairs + for every hash row with a lane manager every ordered pair out of 4 (thorough 12) cipher rows, first suite cipher->hash, second hash->cipher), job and burst API, deviation-bounded schedules: every job must equal the same job processed alone, i.e. each stage is dispatched with the handlers of its own suite. One message length (96 bytes) and one parameter set per cell in the product driver; acceptance rules are restated from intel-ipsec-mb.h / README and were calibrated against the pinned tree (differences are listed as findings, not absorbed).',
+    'drivers': [{'name': 'c06', 'src': ['props/c06.c'] + ALG, 'cfgs': ['std'], 'args': ''},
+                {'name': 'c04', 'src': ['props/c04.c'] + ALG, 'cfgs': ['std'], 'args': 'mixed: C06'}],
     'assumptions': ['the finite product is complete: enums are iterated from 0 to *_NUM inclusive'],
 }
 
